@@ -1961,3 +1961,139 @@ Theorem C05_overflow_delineate_boundary_distmax :
        Err (Overflow false 9223372037000250000).
 Proof. exact @ChkGis.overflow_delineate_boundary_distmax. Qed.
 Print Assumptions C05_overflow_delineate_boundary_distmax.
+
+(* ================================================================== *)
+(* no signed integer overflow (continued): c_intersect, c_voronoi; binary64 *)
+(* instances of the arithmetic laws used by the safe-execution theorems *)
+(* ================================================================== *)
+From Coq Require Import String Lia PrimFloat.
+From Hy Require Import Base.Num Base.MiniC Gen.KernelsAst Gen.Consts Gen.KernelsAstChk Gen.ConstsC16 Model.Grid Model.Intersect.
+From Hy Require Proofs.ChkIntersect Proofs.F64Laws Proofs.SafeGis.
+Import ListNotations.
+Open Scope string_scope.
+Open Scope list_scope.
+Open Scope Z_scope.
+
+(* c_intersect on program_chk: only 2*nval-1 <= LLONG_MAX (the index 2*i+1) besides the buffers grid.py allocates *)
+Theorem C05_nooverflow_intersect :
+  forall (nrows ncols : Z) (xll yll csz csz_area : R) (xys : list (R * R)) 
+         (np0 : Z) (idx0 : list Z) (w0 : list R) (n : nat),
+       nrows <= RefineIntersect.MAXLL ->
+       ncols <= RefineIntersect.MAXLL ->
+       zlen idx0 <= 9223372036854775807 ->
+       2 * zlen xys - 1 <= 9223372036854775807 ->
+       Datatypes.length w0 = Datatypes.length idx0 ->
+       Z.max 0 (nrows * ncols) <= Z.of_nat (Datatypes.length idx0) ->
+       (Datatypes.length xys + 2 < n)%nat ->
+       exec_fun RR XRR program_chk (S n) "c_intersect"
+         [AVI nrows; AVI ncols; AVF xll; AVF yll; AVF csz; AVF csz_area; 
+          AVI (zlen xys); AVArrF (RefineIntersect.flat2 xys); AVI (zlen idx0); 
+          AVArrI [np0]; AVArrI idx0; AVArrF w0] =
+       Ok
+         (RI 0,
+          let acc := c_intersect RR nrows ncols xll yll csz csz_area xys in
+          [VArrF (RefineIntersect.flat2 xys); VArrI [zlen acc];
+           VArrI (map fst acc ++ skipn (Datatypes.length acc) idx0);
+           VArrF (map snd acc ++ skipn (Datatypes.length acc) w0)]).
+Proof. exact @ChkIntersect.chk_refine_intersect_RR. Qed.
+Print Assumptions C05_nooverflow_intersect.
+
+Theorem C05_nooverflow_voronoi :
+  forall (nrows ncols : Z) (xll yll csz : R) (cells : list Z) (pts : list (R * R))
+         (w0 : list R) (n : nat),
+       zlen cells <= 9223372036854775807 ->
+       2 * zlen pts - 1 <= 9223372036854775807 ->
+       (1 <= nrows -> 1 <= ncols -> cells <> [] -> nrows * ncols <= 9223372036854775807) ->
+       Datatypes.length w0 = Datatypes.length pts ->
+       (Nat.max (Datatypes.length cells) (Datatypes.length pts) + 1 < n)%nat ->
+       let run :=
+         exec_fun RR XRR program_chk (S n) "c_voronoi"
+           [AVI nrows; AVI ncols; AVF xll; AVF yll; AVF csz; AVI (zlen cells); 
+            AVArrI cells; AVI (zlen pts); AVArrF (RefineIntersect.flat2 pts); 
+            AVArrF w0] in
+       if (zlen pts <? 1) || ((nrows <? 1) || (ncols <? 1))
+       then
+        exists code : Z,
+          0 < code /\
+          run = Ok (RI code, [VArrI cells; VArrF (RefineIntersect.flat2 pts); VArrF w0])
+       else
+        if forallb (valid_cell nrows ncols) cells
+        then
+         run =
+         Ok
+           (RI 0,
+            [VArrI cells; VArrF (RefineIntersect.flat2 pts);
+             VArrF (voronoi RR VORONOI_DISTMAX_R nrows ncols xll yll csz cells pts)])
+        else
+         exists (code : Z) (pre : list Z) (bad : Z) (post : list Z),
+           0 < code /\
+           cells = pre ++ bad :: post /\
+           forallb (valid_cell nrows ncols) pre = true /\
+           valid_cell nrows ncols bad = false /\
+           run =
+           Ok
+             (RI code,
+              [VArrI cells; VArrF (RefineIntersect.flat2 pts);
+               VArrF (voronoi_counts RR VORONOI_DISTMAX_R nrows ncols xll yll csz pre pts)]).
+Proof. exact @ChkIntersect.chk_refine_voronoi_RR. Qed.
+Print Assumptions C05_nooverflow_voronoi.
+
+(* necessity of nrows*ncols <= LLONG_MAX (a 2^32 x 2^32 grid) *)
+Theorem C05_overflow_voronoi_ncells :
+  forall (T : Type) (N : NumOps T) (X : NumLit T) (n : nat) (xll yll csz x y w : T),
+       exec_fun N X program_chk (S (S (S n))) "c_voronoi"
+         [AVI ChkIntersect.two32; AVI ChkIntersect.two32; AVF xll; AVF yll; 
+          AVF csz; AVI 1; AVArrI [0]; AVI 1; AVArrF [x; y]; AVArrF [w]] =
+       Err (Overflow false 18446744073709551616).
+Proof. exact @ChkIntersect.overflow_voronoi_ncells. Qed.
+Print Assumptions C05_overflow_voronoi_ncells.
+
+(* c_slice in binary64, grids of at most 2^53 rows / columns *)
+Theorem C05_kernel_slice_binary64 :
+  forall (nrows ncols : Z) (xll yll csz : float) (data xys zs : list float) (n : nat),
+       nrows <= 2 ^ 53 ->
+       ncols <= 2 ^ 53 ->
+       Z.of_nat (Datatypes.length data) = nrows * ncols ->
+       Datatypes.length xys = (2 * Datatypes.length zs)%nat ->
+       (Datatypes.length zs + 2 < n)%nat ->
+       exists (ret : retval float) (outs : list (arrval float)),
+         exec_fun F64 XF64 program (S n) "c_slice"
+           [AVI nrows; AVI ncols; AVF xll; AVF yll; AVF csz; AVArrF data; 
+            AVI (zlen zs); AVArrF xys; AVArrF zs] = Ok (ret, outs) /\
+         ret = RI 0 /\
+         (exists zs' : list float,
+            outs = [VArrF data; VArrF xys; VArrF zs'] /\ Datatypes.length zs' = Datatypes.length zs).
+Proof. exact @F64Laws.safe_slice_F64. Qed.
+Print Assumptions C05_kernel_slice_binary64.
+
+(* c_delineate_boundary in binary64 (the 80% threshold conversion is in range) *)
+Theorem C05_kernel_delineate_boundary_binary64 :
+  forall (nrows ncols : Z) (area buffer mask bnd : list Z) (n : nat),
+       Datatypes.length buffer = Datatypes.length area ->
+       Datatypes.length bnd = Datatypes.length area ->
+       Z.of_nat (Datatypes.length mask) = nrows * ncols ->
+       Z.of_nat (Datatypes.length area) <= 2 ^ 63 ->
+       (Datatypes.length area + 4 < n)%nat ->
+       exists (ret : retval float) (outs : list (arrval float)),
+         exec_fun F64 XF64 program (S n) "c_delineate_boundary"
+           [AVI nrows; AVI ncols; AVI (zlen area); AVArrI area; AVArrI buffer; 
+            AVArrI mask; AVArrI bnd] = Ok (ret, outs) /\
+         (exists (c : Z) (area' buffer' bnd' : list Z),
+            ret = RI c /\
+            0 <= c /\
+            outs = [VArrI area'; VArrI buffer'; VArrI mask; VArrI bnd'] /\
+            Datatypes.length area' = Datatypes.length area /\
+            Datatypes.length buffer' = Datatypes.length buffer /\
+            Datatypes.length bnd' = Datatypes.length bnd).
+Proof. exact @F64Laws.safe_delineate_boundary_F64. Qed.
+Print Assumptions C05_kernel_delineate_boundary_binary64.
+
+Theorem C05_binary64_conversion_in_range :
+  forall n : Z, n <= 2 ^ 53 -> SafeGis.trunc_ok F64 n.
+Proof. exact @F64Laws.trunc_ok_F64. Qed.
+Print Assumptions C05_binary64_conversion_in_range.
+
+Theorem C05_binary64_percentage_conversion_in_range :
+  forall len : Z, len <= 2 ^ 63 -> SafeGis.perc_ok F64 XF64 len.
+Proof. exact @F64Laws.perc_ok_F64. Qed.
+Print Assumptions C05_binary64_percentage_conversion_in_range.
